@@ -53,6 +53,9 @@ ALLOWED_SUBST = {
                               "`for x in self.0.iter()` -> `for x in it: self.0.iter()` (`it:` is Verus' ghost name for the iterator)"),
     "iter_named_rules": (r"\bfor\s+(\w+)\s+in\s+&self\.rules\b", r"for \1 in it: self.rules.iter()",
                          "`for x in &self.rules` -> `for x in it: self.rules.iter()` (same desugaring; `it:` is Verus' ghost iterator name)"),
+    "iter_named_elitists": (r"\bfor\s+(\w+)\s+in\s+archive\.elitists\(\)", r"for \1 in it: archive.elitists().iter()",
+                            "`for x in archive.elitists()` (a slice) -> `for x in it: archive.elitists().iter()` (same desugaring: "
+                            "<&[T] as IntoIterator>::into_iter == iter(); `it:` is Verus' ghost iterator name)"),
     "iter_ref_vec": (r"\bfor\s+(\w+)\s+in\s+&self\.0\b", r"for \1 in self.0.iter()",
                      "`for x in &self.0` -> `for x in self.0.iter()` (same desugaring: <&Vec as IntoIterator>::into_iter == iter())"),
     "iter_ref_field": (r"\bfor\s+(\w+)\s+in\s+&self\.(\w+)\b", r"for \1 in self.\2.iter()",
